@@ -1077,11 +1077,69 @@ pub fn c18_all_ready(rec: &mut Rec, rng: &mut Rng, n_clients: usize, extra_waiti
     sim.w.teardown();
 }
 
+/// "with unsent output": responses larger than the socket buffer are partly written to clients that do not read,
+/// then the kill switch is signalled: the very next poll (and every later one) reports shutdown and returns at once
+/// — it must not try to deliver the rest first.
+pub fn c18_unsent_output(rec: &mut Rec, rng: &mut Rng, n_clients: usize) {
+    rec.case("kill-switch-unsent-output");
+    rec.nontrivial();
+    let mut cfg = Cfg::base("C18");
+    cfg.with_kill = true;
+    cfg.big = true;
+    let mut sim = Sim::new(rec, cfg);
+    for _ in 0..n_clients {
+        sim.connect(rec);
+        sim.poll(rec);
+    }
+    for i in 0..n_clients {
+        sim.send_next(rec, rng, i);
+        while !sim.plans[i].outq.is_empty() {
+            sim.send_next(rec, rng, i);
+        }
+    }
+    for _ in 0..(2 * n_clients + 2) {
+        sim.poll(rec);
+    }
+    // answers far larger than the socket buffer; nobody reads
+    while !sim.w.held.is_empty() {
+        let t = sim.w.held[0].tag.clone();
+        let mut body = format!("{}:", t).into_bytes();
+        body.extend(std::iter::repeat(b'.').take(rng.range(300_000, 600_000)));
+        let spec = RespSpec { v11: true, code: 200, ops: vec![BOp::Body(body)] };
+        if let Some(i) = sim.w.held[0].client {
+            sim.plans[i].answered.push(t);
+        }
+        sim.w.respond(rec, 0, &spec);
+    }
+    for _ in 0..(n_clients + 1) {
+        sim.poll(rec);
+    }
+    sim.w.signal_kill(rec);
+    for _ in 0..3 {
+        if !sim.w.ready() {
+            rec.oracle_fail("C18", "the epoll descriptor is not ready although the kill switch was signalled: polling would block", &sim.w.log);
+            break;
+        }
+        let t0 = std::time::Instant::now();
+        sim.w.poll(rec);
+        if t0.elapsed().as_secs() >= 5 {
+            rec.oracle_fail("C18", &format!("a poll after the kill switch took {} s with unsent output pending", t0.elapsed().as_secs()), &sim.w.log);
+        }
+    }
+    if !sim.w.poll_errors.is_empty() || sim.w.shutdown_polls < 3 || sim.w.nonshutdown_after_kill > 0 {
+        rec.oracle_fail("C18", &format!("with unsent output pending: {} polls reported shutdown, {} did not, errors {:?}", sim.w.shutdown_polls, sim.w.nonshutdown_after_kill, sim.w.poll_errors), &sim.w.log);
+    }
+    sim.w.teardown();
+}
+
 pub fn c18(rec: &mut Rec, rng: &mut Rng, thorough: bool) {
     for n_clients in [0usize, 1, 9, 10] {
         for extra in [false, true] {
             c18_all_ready(rec, rng, n_clients, extra);
         }
+    }
+    for n_clients in [1usize, 2, 3] {
+        c18_unsent_output(rec, rng, n_clients);
     }
     let n = if thorough { 2500 } else { 120 };
     for k in 0..n {
